@@ -381,6 +381,9 @@ func RunCase(c *Case, prop string, judgeHandOver bool) *Result {
 					res.MoveEnds++
 					res.NonTrivial = true
 					res.class("loop-move-end")
+					if ft := w.Farm[h]; ft != nil && ft.Job == "j1" && c.J1Interval != "" {
+						res.class("loop-move-end-of-a-job-scraped-every-" + c.J1Interval)
+					}
 					if best < 0 {
 						res.add("C05/loop/source-removed-without-destination", "cycle %d: in_transfer copy of target %d removed from shard %d although no other shard holds it", len(w.Cycles), h, i)
 					} else {
@@ -471,7 +474,7 @@ func RunCase(c *Case, prop string, judgeHandOver bool) *Result {
 	if w.Crash != "" {
 		res.add(prop+"/crash", "%s", w.Crash)
 	}
-	if judgeHandOver && w.Restarts == 0 {
+	if judgeHandOver {
 		for _, m := range w.HandOver {
 			res.add("C05/loop/hand-over-by-harness-count", "%s", m)
 			break
